@@ -141,18 +141,12 @@ impl OpenOptions {
     /// Will panic if the pagesize the database is opened with is not the same as the pagesize it was created with.
     pub fn open<P: AsRef<Path>>(self, path: P) -> Result<DB> {
         let path: &Path = path.as_ref();
-        let file = if !path.exists() {
-            init_file(
-                path,
-                self.pagesize,
-                self.num_pages,
-                self.flags.direct_writes,
-            )?
-        } else {
-            open_file(path, false, self.flags.direct_writes)?
-        };
+        // Opens the file, creating it if it does not exist yet. A new (still empty) file is only
+        // initialized once the exclusive lock is held, so that another process opening the same
+        // path can never see a file that is only partially initialized.
+        let file = open_file(path, true, self.flags.direct_writes)?;
 
-        let db = DBInner::open(file, self.pagesize, self.flags)?;
+        let db = DBInner::open(file, self.pagesize, self.num_pages, self.flags)?;
         Ok(DB {
             inner: Arc::new(db),
         })
@@ -247,8 +241,16 @@ pub(crate) struct DBInner {
 }
 
 impl DBInner {
-    pub(crate) fn open(file: File, pagesize: u64, flags: DBFlags) -> Result<DBInner> {
+    pub(crate) fn open(
+        mut file: File,
+        pagesize: u64,
+        num_pages: usize,
+        flags: DBFlags,
+    ) -> Result<DBInner> {
         file.lock_exclusive()?;
+        if file.metadata()?.len() == 0 {
+            init_file(&mut file, pagesize, num_pages)?;
+        }
         let mmap = mmap(&file, flags.mmap_populate)?;
         let mmap = Mutex::new(Arc::new(mmap));
         let db = DBInner {
@@ -347,8 +349,7 @@ impl DBInner {
     }
 }
 
-fn init_file(path: &Path, pagesize: u64, num_pages: usize, direct_write: bool) -> Result<File> {
-    let mut file = open_file(path, true, direct_write)?;
+fn init_file(file: &mut File, pagesize: u64, num_pages: usize) -> Result<()> {
     file.allocate(pagesize * (num_pages as u64))?;
     let mut buf = vec![0; (pagesize * 4) as usize];
     let mut get_page = |index: u64| {
@@ -388,7 +389,7 @@ fn init_file(path: &Path, pagesize: u64, num_pages: usize, direct_write: bool) -
     file.write_all(&buf[..])?;
     file.flush()?;
     file.sync_all()?;
-    Ok(file)
+    Ok(())
 }
 
 #[cfg(test)]
@@ -486,7 +487,7 @@ fn open_file<P: AsRef<Path>>(path: P, create: bool, direct_write: bool) -> Resul
     let mut open_options = FileOpenOptions::new();
     open_options.write(true).read(true);
     if create {
-        open_options.create_new(true);
+        open_options.create(true);
     }
     if direct_write {
         open_options.custom_flags(O_DIRECT);
@@ -499,7 +500,7 @@ fn open_file<P: AsRef<Path>>(path: P, create: bool, direct_write: bool) -> Resul
     let mut open_options = FileOpenOptions::new();
     open_options.write(true).read(true);
     if create {
-        open_options.create_new(true);
+        open_options.create(true);
     }
     Ok(open_options.open(path)?)
 }
